@@ -91,6 +91,12 @@ class SymBytes:
                 raise EngineLimit('== on symbolic bytes of symbolic length / opaque content')
         return out
 
+    def __iter__(self):
+        """byte values (int | SymInt); needs concrete lengths"""
+        from .core import from_bv_unsigned
+        for b in self._flat():
+            yield b if isinstance(b, int) else from_bv_unsigned(b)
+
     def _equals(self, o):
         import z3
         if not isinstance(o, (bytes, bytearray, SymBytes, SymByteArray)):
@@ -172,6 +178,9 @@ class SymByteArray:
 
     def __len__(self):
         return len(SymBytes(self.segs))
+
+    def __iter__(self):
+        return iter(SymBytes(self.segs))
 
     def __eq__(self, o):
         return SymBytes(self.segs)._equals(o)
